@@ -3,3 +3,4 @@ use vstd::prelude::*;
 //@ include ../_common/prelude_http.rs
 //@ include ../_common/prelude_error.rs
 //@ include ../_common/prelude_response.rs
+//@ include ../_common/prelude_handler_error.rs
